@@ -69,6 +69,22 @@ def counter_cases():
                         new = "hnew s0 %s %d" % (kind, o) + ((" " + H(key)) if key else "")
                         cases.append(([new, "hsetctr s0 %d %d" % (t0, t1), "update_mut s0 %s" % (P(5, 3, n) if n else "h:"), "hclone s0 s1", "fin s0", "fin_reset s1"],
                                       ["-", "-", "-", "-", d, d], None))
+    # a context whose counter words are both non-zero must come back completely fresh from every kind of reset
+    for which, B, w, kind, mx in (("s", 64, 32, "b2sdyn 32", 32), ("b", 128, 64, "b2bdyn 64", 64), ("s", 64, 32, "b2s 256", 32), ("b", 128, 64, "b2b 512", 64)):
+        lowmax = 1 << w
+        msg2 = pat(6, 9, B + 7)
+        k2 = pat(7, 1, 5)
+        fresh = obs_of(hashes.blake2(which, msg2, mx, b""))
+        fresh_k = obs_of(hashes.blake2(which, msg2, mx, k2))
+        for (t0, t1) in ((lowmax - B, 0), (lowmax - 1, 3), (5, lowmax - 1), (0, 1)):
+            for n in (0, 1, B, 2 * B + 1):
+                pre = ["hnew s0 %s" % kind, "hsetctr s0 %d %d" % (t0, t1), "update_mut s0 %s" % (P(5, 3, n) if n else "h:")]
+                e = ["-", "-", "-"]
+                cases.append((pre + ["hreset s0", "update_mut s0 %s" % P(6, 9, B + 7), "fin s0"], e + ["-", "-", fresh], None))
+                cases.append((pre + ["fin_reset s0", "update_mut s0 %s" % P(6, 9, B + 7), "fin s0"], e + [None, "-", fresh], None))
+                cases.append((pre + ["hreset_key s0 %s" % H(k2), "update_mut s0 %s" % P(6, 9, B + 7), "fin s0"], e + ["-", "-", fresh_k], None))
+                cases.append((pre + ["fin_reset_key s0 %s" % H(k2), "update_mut s0 %s" % P(6, 9, B + 7), "fin_reset s0", "update_mut s0 %s" % P(6, 9, B + 7), "fin s0"],
+                              e + [None, "-", fresh_k, "-", fresh], None))
     # fixed-size contexts too (Context<BITS>)
     for which, B, w, kind, bits in (("s", 64, 32, "b2s", 256), ("b", 128, 64, "b2b", 512)):
         lowmax = 1 << w
